@@ -30,8 +30,11 @@ type zzMsgs struct {
 	out      chan []byte // optional: written frames are also sent here (capacity must suffice)
 	writeErr func(n int) error
 	nWrites  int
+	nCalls   int // written frames without upgrade byte (unary calls)
 	nCloses  int
 	yieldW   bool
+	addr     string
+	auto     bool // answer every request at once as a correct server would (ping: empty; call: 'R'+args)
 }
 
 func newZZMsgs(capIn int) *zzMsgs {
@@ -77,6 +80,18 @@ func (m *zzMsgs) WriteMessage(b []byte) error {
 		m.writes = append(m.writes, c)
 		if m.out != nil {
 			m.out <- c
+		}
+		if m.auto {
+			var r pbRequest
+			r.Unmarshal(c)
+			if len(r.Upgrade) == 0 {
+				m.nCalls++
+			}
+			var reply []byte
+			if len(r.Upgrade) == 0 {
+				reply = zzReplyFor(r.Args)
+			}
+			m.in <- zzFrame{data: zzResponse(r.Seq, "", reply)}
 		}
 	}
 	m.mu.Unlock()
